@@ -21,6 +21,7 @@
 //     the call proceeds — an interleaving of the aggregation goroutine with the submission loops that the Go
 //     scheduler is free to pick.  The point at which each iteration ran is classified from the call stack (which
 //     function of block/ is reading) and reported to the model as a ThrottleConc.sched,
+//
 // against a scripted DA double that answers truthfully (accept k of n | failure; script end = the caller's
 // context is cancelled).  A DA outage of length n = n failures followed by acceptance; n may exceed
 // maxSubmitAttempts.  Everything runs in testing/synctest bubbles (the backoff sleeps are virtual).
@@ -913,13 +914,15 @@ func hasFn(fs []string, name string) bool {
 
 // storeCall classifies the point the attempt has reached from WHO is reading (the call stack), and runs the
 // iterations scheduled for it:
-//   pre    first read of numPendingHeaders (before it loads the header watermark)
-//   hd     first read of numPendingData (the header watermark has been loaded, the data watermark not yet)
-//   fetch  getPending inside numWaitingData: its watermark load is done; Height() and the GetBlockData fetches
-//   loop   SetMetadata inside numWaitingData's watermark step over the empty item h (the data watermark's mutex is
-//          held: only header iterations can run); model: before the next item is examined
-//   build  any store call made after publishBlockInternal itself has called the store (the limit check is over
-//          and let the attempt pass), up to and including SetHeight
+//
+//	pre    first read of numPendingHeaders (before it loads the header watermark)
+//	hd     first read of numPendingData (the header watermark has been loaded, the data watermark not yet)
+//	fetch  getPending inside numWaitingData: its watermark load is done; Height() and the GetBlockData fetches
+//	loop   SetMetadata inside numWaitingData's watermark step over the empty item h (the data watermark's mutex is
+//	       held: only header iterations can run); model: before the next item is examined
+//	build  any store call made after publishBlockInternal itself has called the store (the limit check is over
+//	       and let the attempt pass), up to and including SetHeight
+//
 // Reads made for the refusal's log message and anything after SetHeight are no points.
 func (w *world) storeCall(method string, h uint64, key string, value []byte) {
 	if t := w.tick; t != nil {
@@ -1212,7 +1215,7 @@ type itemOut struct {
 	height  uint64
 	wh, wd  uint64 // in-memory watermarks after the item
 	ph, pd  uint64 // recorded watermarks after the item (0 = none)
-	inter   bool       // an interleaved attempt: subs = what each iteration inside it did, in order
+	inter   bool   // an interleaved attempt: subs = what each iteration inside it did, in order
 	subs    []firedSub
 	late    []SubIt // scheduled inside the attempt but never reached: run after it
 }
@@ -1228,7 +1231,7 @@ type caseResult struct {
 	nRefused   int
 	nExhausted int
 	nProduced  int
-	nRepeat    int // blocks whose transaction list equals that of an earlier block of the chain
+	nRepeat    int  // blocks whose transaction list equals that of an earlier block of the chain
 	stale      bool // an interleaved attempt was refused on a count that an iteration inside it made out of date
 	nStale     int
 	nInterRef  int
